@@ -2,13 +2,13 @@ CONSTANTS
   Prelude <- PreBody
   Fresh <- Fresh2
   PreScopes = {"_SB_"}
-  MaxProd = 2  MaxTables = 1  MaxDepth = 1
+  MaxProd = 1  MaxTables = 1  MaxDepth = 1
   Decls = {}
   Forms = {"abs"}
   Values = {}
-  Stmts = {"sync", "notify", "match", "call", "calloplast", "cfield", "store", "pkg", "varpkg", "buf"}  MaxStmts = 2
-  Devs = {"IndexFieldNamed", "AliasKeepsSourceName", "ExternalIsObject", "CreateFieldNotNamed", "PackageMethodRefInvoked", "VarPackageCountByte", "MatchOperatorBytes", "LoadTableSevenOperands", "IfBodyFlattened", "RelPathInTerm", "ValueNamesFromFinalPlace"}
-  Excluded = {"D1", "D1b", "D2", "D2c", "D3", "D5", "D6", "D7", "D9", "IndexFieldNamed", "AliasKeepsSourceName", "ExternalIsObject", "CreateFieldNotNamed", "PackageMethodRefInvoked", "VarPackageCountByte", "MatchOperatorBytes", "LoadTableSevenOperands", "IfBodyFlattened", "RelPathInTerm", "ValueNamesFromFinalPlace", "InvisibleCallee", "MethodAsRef", "HiddenNameInDeferred", "BankFieldUnitInDeferred"}
+  Stmts = {"sync", "notify", "match", "call", "calloplast", "cfield", "store", "pkg", "varpkg", "buf"}  MaxStmts = 1
+  Devs = {"IndexFieldNamed", "AliasKeepsSourceName", "ExternalIsObject", "CreateFieldNotNamed", "PackageMethodRefInvoked", "VarPackageCountByte", "MatchOperatorBytes", "LoadTableSevenOperands", "IfBodyFlattened", "RelPathInTerm", "ValueNamesFromFinalPlace", "EmptyBufferInDeferred"}
+  Excluded = {"D1", "D1b", "D2", "D2c", "D3", "D5", "D6", "D7", "D9", "IndexFieldNamed", "AliasKeepsSourceName", "ExternalIsObject", "CreateFieldNotNamed", "PackageMethodRefInvoked", "VarPackageCountByte", "MatchOperatorBytes", "LoadTableSevenOperands", "IfBodyFlattened", "RelPathInTerm", "ValueNamesFromFinalPlace", "EmptyBufferInDeferred", "InvisibleCallee", "MethodAsRef", "HiddenNameInDeferred", "BankFieldUnitInDeferred"}
   Emit = TRUE  Bug = ""
 INIT Init
 NEXT Next
